@@ -4,6 +4,8 @@
   sharp by less than 1/⌊x⌋.  The bounds of the property (0.5 %, 1 % below 22.05 kHz) follow for both chip clocks.
 -/
 import OpnVerif.Model.Resampler
+import OpnVerif.Model.ChipFront
+import OpnVerif.Gen.Pitch
 
 namespace Opn.C20
 open Opn Opn.Resampler
@@ -57,5 +59,277 @@ theorem rateRatio_pos (rate : Nat) (h : 55 ≤ rate) : 0 < rateRatio rate clockO
   have e : (2 : Nat) ^ 10 = 1024 := by decide
   rw [e]
   constructor <;> omega
+
+
+/-- the constants of the model are those of the source (regenerated on every run) -/
+theorem consts_tied : clockOPN2 = Gen.clockOPN2 ∧ clockOPNA = Gen.clockOPNA ∧ rsmFrac = Gen.rsmFrac := by decide
+
+/-! ## the register queue of the YMFM front-ends: a FIFO that loses nothing, also in dense bursts -/
+
+open Opn.ChipFront
+
+/-- one call: what the core has received followed by what is pending is what was there before, plus the new write -/
+theorem queue_step (cap : Nat) (q : Q) (op : Op) :
+    (q.step cap op).chip ++ (q.step cap op).pend = q.chip ++ q.pend ++ (match op with | .write w => [w] | .drain => []) := by
+  cases op with
+  | write w =>
+    simp only [Q.step, Q.write]
+    split
+    · cases h : q.pend with
+      | nil => simp
+      | cons x rest => simp
+    · simp
+  | drain =>
+    simp only [Q.step, Q.drain]
+    cases h : q.pend with
+    | nil => simp [h]
+    | cons x rest => simp
+
+/-- **C20, dense bursts: every register write reaches the emulator core, in the order it was issued** — for every history
+    of writes and rendered native frames (of any length, any burst size, any ring capacity) the writes the core has
+    received followed by the writes still pending are exactly the writes issued: none lost, none duplicated, none reordered. -/
+theorem queue_fifo (cap : Nat) (ops : List Op) (q : Q) :
+    (q.run cap ops).chip ++ (q.run cap ops).pend = q.chip ++ q.pend ++ issued ops := by
+  induction ops generalizing q with
+  | nil => simp [Q.run, issued]
+  | cons op rest ih =>
+    have h := ih (q.step cap op)
+    simp only [Q.run, List.foldl_cons] at h ⊢
+    rw [h, queue_step]
+    cases op <;> simp [issued]
+
+/-- from the empty queue: received ++ pending = issued -/
+theorem queue_fifo_init (cap : Nat) (ops : List Op) :
+    (Q.run cap {} ops).chip ++ (Q.run cap {} ops).pend = issued ops := by
+  have := queue_fifo cap ops {}
+  simpa using this
+
+/-- what the core has received is always a prefix of what was issued (it never sees a write early or out of order) -/
+theorem received_prefix (cap : Nat) (ops : List Op) : (Q.run cap {} ops).chip <+: issued ops := by
+  refine ⟨(Q.run cap {} ops).pend, ?_⟩
+  exact queue_fifo_init cap ops
+
+/-- the ring never holds more than its capacity -/
+theorem pending_bounded_step (cap : Nat) (hc : 0 < cap) (q : Q) (op : Op) (h : q.pend.length ≤ cap) :
+    (q.step cap op).pend.length ≤ cap := by
+  cases op with
+  | write w =>
+    simp only [Q.step, Q.write]
+    split
+    · cases hq : q.pend with
+      | nil => simp
+      | cons x rest => rw [hq] at h; simp at h ⊢; omega
+    · simp; omega
+  | drain =>
+    simp only [Q.step, Q.drain]
+    cases hq : q.pend with
+    | nil => simp [hq]
+    | cons x rest => rw [hq] at h; simp at h ⊢; omega
+
+theorem pending_bounded (cap : Nat) (hc : 0 < cap) (ops : List Op) : (Q.run cap {} ops).pend.length ≤ cap := by
+  suffices H : ∀ q : Q, q.pend.length ≤ cap → (q.run cap ops).pend.length ≤ cap from H {} (by simp)
+  induction ops with
+  | nil => intro q h; exact h
+  | cons op rest ih => intro q h; exact ih _ (pending_bounded_step cap hc q op h)
+
+/-- rendering `n` native frames hands over the `n` oldest pending writes -/
+theorem drain_n (cap : Nat) (n : Nat) (q : Q) :
+    (q.run cap (List.replicate n .drain)).chip = q.chip ++ q.pend.take n ∧
+    (q.run cap (List.replicate n .drain)).pend = q.pend.drop n := by
+  induction n generalizing q with
+  | zero => simp [Q.run]
+  | succ k ih =>
+    simp only [List.replicate_succ, Q.run, List.foldl_cons]
+    have := ih (q.step cap .drain)
+    simp only [Q.run] at this
+    rw [this.1, this.2]
+    simp only [Q.step, Q.drain]
+    cases hq : q.pend with
+    | nil => simp [hq]
+    | cons x rest => simp
+
+/-- **onset / release bound**: after at most `cap` rendered native frames (500 frames = 9.4 ms at the native rate of 53267 Hz)
+    every write issued so far has reached the core — in particular the key-on of a new note and the key-off of a
+    released one, however dense the burst around them was -/
+theorem all_delivered (cap : Nat) (hc : 0 < cap) (ops : List Op) :
+    ((Q.run cap {} ops).run cap (List.replicate cap .drain)).pend = [] ∧
+    ((Q.run cap {} ops).run cap (List.replicate cap .drain)).chip = issued ops := by
+  have hb := pending_bounded cap hc ops
+  have hd := drain_n cap cap (Q.run cap {} ops)
+  have hf := queue_fifo_init cap ops
+  constructor
+  · rw [hd.2]; exact List.drop_eq_nil_of_le hb
+  · rw [hd.1, List.take_of_length_le hb]; exact hf
+
+/-- 500 native frames of the OPN2 family last less than 10 ms (the bound of the property) -/
+theorem queue_latency_ms : Gen.ymfmQueueSizeOPN2 * 1000 < 10 * Gen.nativeRateOPN2 ∧ Gen.ymfmQueueSizeOPNA * 1000 < 10 * Gen.nativeRateOPNA := by decide
+
+/-- the guard is needed: without it (the ring as it was) three writes into a ring of two cells, then three rendered frames,
+    give the core the third write first and the second write twice — the first write is lost -/
+theorem unguarded_ring_loses :
+    let r := ((((Ring.empty 2).writeUnguarded 2 (1, 1)).writeUnguarded 2 (2, 2)).writeUnguarded 2 (3, 3))
+    (((r.drain 2).drain 2).drain 2).chip = [(3, 3), (2, 2), (3, 3)] := by decide
+
+/-- … and with the guard the same history delivers all three, in order -/
+theorem guarded_ring_keeps :
+    let r := ((((Ring.empty 2).write 2 (1, 1)).write 2 (2, 2)).write 2 (3, 3))
+    (((r.drain 2).drain 2).drain 2).chip = [(1, 1), (2, 2), (3, 3)] := by decide
+
+/-! ## the ring buffer as the code writes it refines the queue -/
+
+structure RInv (cap : Nat) (r : Ring) : Prop where
+  len : r.buf.length = cap
+  cnt : r.count ≤ cap
+  tl : r.tail < cap
+  hd : r.head = (r.tail + r.count) % cap
+
+def abs (cap : Nat) (r : Ring) : Q := { pend := r.pending cap, chip := r.chip }
+
+theorem wrap_succ (cap t : Nat) (ht : t < cap) : (if t + 1 ≥ cap then 0 else t + 1) = (t + 1) % cap := by
+  by_cases h : t + 1 ≥ cap
+  · have : t + 1 = cap := by omega
+    simp [this]
+  · simp [h]; exact (Nat.mod_eq_of_lt (by omega)).symm
+
+theorem pending_pop (cap : Nat) (r : Ring) (h : RInv cap r) (hc : 0 < r.count) :
+    r.pending cap = r.buf.getD r.tail (0, 0) :: (r.pop cap).pending cap := by
+  obtain ⟨c, hcc⟩ : ∃ c, r.count = c + 1 := ⟨r.count - 1, by omega⟩
+  unfold Ring.pending Ring.pop
+  simp only [hcc, Nat.add_sub_cancel]
+  rw [List.range_succ_eq_map, List.map_cons, List.map_map]
+  congr 1
+  · simp [Nat.mod_eq_of_lt h.tl]
+  · apply List.map_congr_left
+    intro i _
+    simp only [Function.comp]
+    rw [wrap_succ cap r.tail h.tl]
+    congr 1
+    rw [Nat.mod_add_mod]
+    congr 1; omega
+
+
+theorem mod_ne (cap t i c : Nat) (hi : i < c) (hc : c < cap) : (t + i) % cap ≠ (t + c) % cap := by
+  intro e
+  have := Nat.sub_mod_eq_zero_of_mod_eq e.symm
+  have e2 : t + c - (t + i) = c - i := by omega
+  rw [e2, Nat.mod_eq_of_lt (by omega)] at this
+  omega
+
+theorem getD_set_ne (l : List Reg) (i j : Nat) (a : Reg) (h : i ≠ j) : (l.set i a).getD j (0, 0) = l.getD j (0, 0) := by
+  simp [List.getD_eq_getElem?_getD, h]
+
+theorem getD_set_eq (l : List Reg) (i : Nat) (a : Reg) (h : i < l.length) : (l.set i a).getD i (0, 0) = a := by
+  simp [List.getD_eq_getElem?_getD, h]
+
+theorem pending_push (cap : Nat) (r : Ring) (w : Reg) (h : RInv cap r) (hc : r.count < cap) :
+    (r.push cap w).pending cap = r.pending cap ++ [w] := by
+  have hcap : 0 < cap := by omega
+  have hhd : r.head < r.buf.length := by rw [h.len, h.hd]; exact Nat.mod_lt _ hcap
+  unfold Ring.pending Ring.push
+  simp only
+  rw [List.range_succ, List.map_append]
+  congr 1
+  · apply List.map_congr_left
+    intro i hi
+    have hi' : i < r.count := List.mem_range.mp hi
+    apply getD_set_ne
+    rw [h.hd]
+    exact (mod_ne cap r.tail i r.count hi' hc).symm
+  · simp only [List.map_cons, List.map_nil]
+    rw [← h.hd, getD_set_eq _ _ _ hhd]
+
+theorem inv_pop (cap : Nat) (r : Ring) (h : RInv cap r) (hc : 0 < r.count) : RInv cap (r.pop cap) := by
+  have hcap : 0 < cap := by have := h.tl; omega
+  refine ⟨h.len, ?_, ?_, ?_⟩
+  · show r.count - 1 ≤ cap
+    have := h.cnt; omega
+  · show (if r.tail + 1 ≥ cap then 0 else r.tail + 1) < cap
+    split <;> omega
+  · show r.head = ((if r.tail + 1 ≥ cap then 0 else r.tail + 1) + (r.count - 1)) % cap
+    rw [wrap_succ cap r.tail h.tl, Nat.mod_add_mod, h.hd]
+    congr 1; omega
+
+theorem inv_push (cap : Nat) (r : Ring) (w : Reg) (h : RInv cap r) (hc : r.count < cap) : RInv cap (r.push cap w) := by
+  have hcap : 0 < cap := by omega
+  have hhd : r.head < cap := by rw [h.hd]; exact Nat.mod_lt _ hcap
+  refine ⟨?_, ?_, h.tl, ?_⟩
+  · show (r.buf.set r.head w).length = cap
+    simp [h.len]
+  · show r.count + 1 ≤ cap
+    omega
+  · show (if r.head + 1 ≥ cap then 0 else r.head + 1) = (r.tail + (r.count + 1)) % cap
+    rw [wrap_succ cap r.head hhd, h.hd, Nat.mod_add_mod]
+    congr 1
+
+theorem inv_empty (cap : Nat) (hc : 0 < cap) : RInv cap (Ring.empty cap) := by
+  refine ⟨by simp [Ring.empty], by simp [Ring.empty], by simpa [Ring.empty] using hc, by simp [Ring.empty]⟩
+
+/-- **the ring refines the queue**: one call of writeReg / one dequeue step on a ring that satisfies the invariant gives a ring
+    that satisfies it, and its pending list and received list are those of the specification's step -/
+theorem ring_refines_step (cap : Nat) (r : Ring) (op : Op) (h : RInv cap r) :
+    RInv cap (r.step cap op) ∧ abs cap (r.step cap op) = (abs cap r).step cap op := by
+  have hcap : 0 < cap := by have := h.tl; omega
+  have hlen : (r.pending cap).length = r.count := by simp [Ring.pending]
+  cases op with
+  | write w =>
+    simp only [Ring.step, Ring.write, Q.step, Q.write, abs, hlen]
+    by_cases hf : r.count ≥ cap
+    · have hc0 : 0 < r.count := by omega
+      have hi := inv_pop cap r h hc0
+      have hcnt : (r.pop cap).count < cap := by show r.count - 1 < cap; have := h.cnt; omega
+      simp only [hf, if_true]
+      refine ⟨inv_push cap _ w hi hcnt, ?_⟩
+      rw [pending_push cap _ w hi hcnt]
+      have hp := pending_pop cap r h hc0
+      rw [hp]
+      rfl
+    · have hlt : r.count < cap := by omega
+      have hle : ¬ cap ≤ r.count := by omega
+      simp only [hf, hle, if_false]
+      exact ⟨inv_push cap r w h hlt, by rw [pending_push cap r w h hlt]; rfl⟩
+  | drain =>
+    simp only [Ring.step, Ring.drain, Q.step, Q.drain, abs]
+    by_cases hc0 : r.count > 0
+    · simp only [hc0, if_true]
+      refine ⟨inv_pop cap r h hc0, ?_⟩
+      rw [pending_pop cap r h hc0]
+      rfl
+    · have : r.count = 0 := by omega
+      simp only [hc0, if_false]
+      refine ⟨h, ?_⟩
+      have : r.pending cap = [] := by simp [Ring.pending, this]
+      rw [this]
+
+/-- … for every history: the ring started empty behaves as the queue, so (`queue_fifo`) the emulator core receives every
+    write of every burst, in order -/
+theorem ring_refines (cap : Nat) (hc : 0 < cap) (ops : List Op) :
+    RInv cap ((Ring.empty cap).run cap ops) ∧ abs cap ((Ring.empty cap).run cap ops) = Q.run cap {} ops := by
+  suffices H : ∀ (r : Ring) (q : Q), RInv cap r → abs cap r = q → RInv cap (r.run cap ops) ∧ abs cap (r.run cap ops) = q.run cap ops from
+    H _ _ (inv_empty cap hc) (by simp [abs, Ring.empty, Ring.pending])
+  induction ops with
+  | nil => intro r q h e; exact ⟨h, e⟩
+  | cons op rest ih =>
+    intro r q h e
+    have hs := ring_refines_step cap r op h
+    simp only [Ring.run, Q.run, List.foldl_cons]
+    exact ih _ _ hs.1 (by rw [hs.2, e])
+
+
+/-- **C20 for the ring itself**: whatever the burst sizes, the ring of `writeReg` / `nativeGenerate` hands the emulator core
+    exactly the issued writes in their order: received ++ pending = issued, at every moment of every history -/
+theorem ring_fifo (cap : Nat) (hc : 0 < cap) (ops : List Op) :
+    ((Ring.empty cap).run cap ops).chip ++ ((Ring.empty cap).run cap ops).pending cap = issued ops := by
+  have h := (ring_refines cap hc ops).2
+  have hf := queue_fifo_init cap ops
+  rw [← h] at hf
+  exact hf
+
+/-- the counter of the ring never exceeds its capacity (the index arithmetic of the C++ stays inside `m_queue`) -/
+theorem ring_count_le (cap : Nat) (hc : 0 < cap) (ops : List Op) :
+    ((Ring.empty cap).run cap ops).count ≤ cap ∧ ((Ring.empty cap).run cap ops).tail < cap ∧
+    ((Ring.empty cap).run cap ops).head < cap ∧ ((Ring.empty cap).run cap ops).buf.length = cap := by
+  have h := (ring_refines cap hc ops).1
+  refine ⟨h.cnt, h.tl, ?_, h.len⟩
+  rw [h.hd]; exact Nat.mod_lt _ hc
 
 end Opn.C20
